@@ -19,6 +19,16 @@ macro_rules! dispatch {
             "C06" => $f(&props::c06::C06, $($args),*),
             "C13" => $f(&props::c13::C13, $($args),*),
             "C17" => $f(&props::c17::C17, $($args),*),
+            "C15" => $f(&props::c15::C15, $($args),*),
+            "C04" => $f(&props::c04::C04, $($args),*),
+            "C09" => $f(&props::c09::C09, $($args),*),
+            "C14" => $f(&props::c14::C14, $($args),*),
+            "C16" => $f(&props::c16::C16, $($args),*),
+            "C07" => $f(&props::c07::C07, $($args),*),
+            "C08" => $f(&props::c08::C08, $($args),*),
+            "C10" => $f(&props::c10::C10, $($args),*),
+            "C11" => $f(&props::c11::C11, $($args),*),
+            "C12" => $f(&props::c12::C12, $($args),*),
             other => {
                 eprintln!("unknown property {}", other);
                 2
